@@ -296,7 +296,7 @@ def main(tier, seed):
         rep.merge_worker("ops", r)
     rep.section("ops", None, specs=len(specs))
     # vacuity: the leak detector must see a deliberately leaked register
-    ex = Explorer()
+    ex = Explorer(max_paths=3000, budget_s=90)
 
     def twin(inp):
         conn, sock = mk_conn("generic")
@@ -308,7 +308,7 @@ def main(tier, seed):
     rep.witness("deliberately leaked register is seen", len(ex.cexs) == 1)
 
     def one():
-        Explorer().run(make_body({"op": "create_keep_seq", "k": 2, "hw": "nv"}))
-        Explorer().run(make_body({"op": "until0", "k": 1, "hw": "generic"}))
+        Explorer(max_paths=4, budget_s=30).run(make_body({"op": "create_keep_seq", "k": 2, "hw": "nv"}))
+        Explorer(max_paths=4, budget_s=30).run(make_body({"op": "until0", "k": 1, "hw": "generic"}))
     rep.functions_encoded |= trace_functions(one)
     return rep.finish(replay)
